@@ -368,8 +368,47 @@ def extreme_case(spec):
             "sample": {"kind": "extreme", "coin": coin, "threads": spec["threads"]}}
 
 
+def env_case(spec):
+    """One directory, one set of range options, different surroundings: working directory (relative -d path), dump folder name with
+    spaces and a trailing slash, locale / time zone / RUST_LOG / HOME, log verbosity (-v, -vv: more log lines, same results)."""
+    coin = spec["coin"]
+    rng = random.Random("C13env|%s|%s" % (spec["seed"], spec["n"]))
+    chain = sched_chain(rng, coin, spec["shape"])
+    work = harness.fresh(os.path.join(spec["work"], "c%d" % spec["n"]))
+    d = os.path.join(work, "data dir")
+    datadir.write_datadir(d, COINS[coin], harness.simple_layout(chain))
+    binary = core.build("release")
+    v, counters = [], {"runs": 0, "environment_variants": 0}
+    variants = [("baseline", {}, None, "o", 0), ("dump-folder-with-spaces-and-slash", {}, None, "out put dir/", 0), ("relative-datadir", {}, work, "o", 0),
+                ("locale-tz", {"LANG": "tr_TR.UTF-8", "LC_ALL": "tr_TR.UTF-8", "LC_NUMERIC": "de_DE.UTF-8", "TZ": "Asia/Kolkata"}, None, "o", 0),
+                ("rust-log", {"RUST_LOG": "trace", "RUST_BACKTRACE": "full"}, None, "o", 0), ("no-home", {"HOME": "/nonexistent"}, None, "o", 0),
+                ("verbose-1", {}, None, "o", 1), ("verbose-2", {}, None, "o", 2),
+                ("long-dump-path", {}, None, "/".join(["p" * 60] * 3), 0)]
+    for cbname in spec["callbacks"]:
+        digests = {}
+        for name, env, cwd, dumpname, verbosity in variants:
+            dump = os.path.join(work, dumpname)
+            shutil.rmtree(dump.rstrip("/"), ignore_errors=True)
+            os.makedirs(dump, exist_ok=True)
+            argv = harness.cli(binary, "./data dir" if cwd else d, coin, cbname, dump, verbosity=verbosity)
+            p = core.run(argv, env=dict(env, RAYON_NUM_THREADS="8"), cwd=cwd, timeout=600)
+            if p.timed_out:
+                raise Inconclusive("watchdog fired (environment variant %s)" % name)
+            counters["runs"] += 1
+            counters["environment_variants"] += 1
+            bad = model_check(cbname, p, dump, chain, coin)
+            v.extend(viol("environment:" + sig, "%s [%s, variant %s, coin=%s]" % (det, cbname, name, coin)) for sig, det in bad[:1])
+            digests[name] = digest_outputs(cbname, p, dump) if p.rc == 0 else "exit %s" % p.rc
+        if len(set(digests.values())) > 1:
+            v.append(viol("environment:runs-differ", "%s: results differ between environment variants: %s [coin=%s]" % (
+                cbname, sorted((dg or "-")[:10] + ":" + nm for nm, dg in digests.items()), coin)))
+    shutil.rmtree(work, ignore_errors=True)
+    return {"evaluations": counters["runs"], "violations": v[:4], "counters": counters, "shapes": ["environment|%s|%s" % (coin, c) for c in spec["callbacks"]],
+            "sample": {"kind": "environment", "coin": coin, "variants": [x[0] for x in variants]}}
+
+
 def dispatch(spec):
-    return {"sched": sched_case, "history": history_case, "tsan": tsan_case, "nohooks": nohooks_case, "extreme": extreme_case}[spec["case"]](spec)
+    return {"env": env_case, "sched": sched_case, "history": history_case, "tsan": tsan_case, "nohooks": nohooks_case, "extreme": extreme_case}[spec["case"]](spec)
 
 
 def plan(chk):
@@ -396,6 +435,9 @@ def plan(chk):
         seq[1] = (cbs[i % 3], None, None)
         seq.append(seq[1])     # identical rerun
         specs.append(dict(case="history", coin=COIN_NAMES[n % 8], seed=chk.seed, n=n, sequence=seq, xor=(i % 2 == 0), trace=True))
+    for i in range(4 if chk.thorough else 1):
+        n += 1
+        specs.append(dict(case="env", coin=COIN_NAMES[(chk.seed + 1 + i * 3) % 8], seed=chk.seed, n=n, shape=[(30, 6), (2, 40), (1, 1)], callbacks=all_cb))
     for i in range(4 if chk.thorough else 1):
         n += 1
         specs.append(dict(case="extreme", coin=COIN_NAMES[(chk.seed + i * 3) % 8], seed=chk.seed, n=n, profiles=["release", "debug"] if i % 2 == 0 else ["release"],
@@ -444,4 +486,4 @@ def main():
 
 
 def replay(spec):
-    core.replay_case("C13", {"sched": sched_case, "history": history_case, "tsan": tsan_case, "nohooks": nohooks_case, "extreme": extreme_case}, spec)
+    core.replay_case("C13", {"env": env_case, "sched": sched_case, "history": history_case, "tsan": tsan_case, "nohooks": nohooks_case, "extreme": extreme_case}, spec)
